@@ -93,7 +93,7 @@ var checks = map[string]*checkDef{
 			{workload: "C12", variant: "force32bit", quick: 480, thorough: 15000},
 		},
 		assume: []string{
-			"the schnorrkel model (key expansion, witness, challenge, s, encodings) is written from the schnorrkel / Merlin definitions over the independent Merlin model and math/big; group operations inside the model are the library's Ristretto arithmetic (trusted layer), so arithmetic defects shared by both sides are invisible here",
+			"the reference model is fully independent of the library: schnorrkel logic (key expansion, witness, challenge, s, encodings) over the independent Merlin/STROBE/Keccak model, RFC 9496 ristretto255 encoding/decoding and RFC 8032 edwards25519 arithmetic over math/big; validated on every start by the Merlin vectors and the RFC 9496 generator-multiple and invalid-encoding vectors",
 			"honest R is uniformly random, so an accidental second valid encoding of an altered tuple has negligible probability; any acceptance of an altered tuple is treated as a violation",
 			"a signature's R is decompressed lazily: a non-canonical or swapped R is refused at Verify/Add, not by Signature.UnmarshalBinary; the XOF-read panic and the batch 'delinearization rng' panic are accepted only under an injected reader error",
 		},
